@@ -158,26 +158,20 @@ class DataPacketQueue(utils.EventEmitter):
             return
 
         connection_state = self._connection_state[connection_handle]
-        if packet_count <= connection_state.in_flight:
-            connection_state.in_flight -= packet_count
-        else:
+        if packet_count > connection_state.in_flight:
             logger.warning(
                 f'{packet_count} completed for {connection_handle} '
                 f'but only {connection_state.in_flight} in flight'
             )
-            connection_state.in_flight = 0
+            # Only release the credits this connection actually holds, so that the
+            # global count stays the sum of the per-connection counts.
+            packet_count = connection_state.in_flight
+        connection_state.in_flight -= packet_count
         if connection_state.in_flight == 0:
             connection_state.drained.set()
 
-        if packet_count <= self._in_flight:
-            self._in_flight -= packet_count
-            self._completed += packet_count
-        else:
-            logger.warning(
-                f'{packet_count} completed but only {self._in_flight} in flight'
-            )
-            self._in_flight = 0
-            self._completed = self._queued
+        self._in_flight -= packet_count
+        self._completed += packet_count
 
         self._check_queue()
         self.emit('flow')
